@@ -242,17 +242,21 @@ pub trait Layout {
 
     /// Return the minimum length required for the element data buffer used
     /// with this layout.
+    ///
+    /// If the required length is too large to represent, this returns
+    /// `usize::MAX`, which is larger than any buffer.
     fn min_data_len(&self) -> usize {
         if self.shape().iter().any(|d| d == 0) {
             return 0;
         }
-        let max_offset: usize = self
+        let max_offset = self
             .shape()
             .iter()
             .zip(self.strides().iter())
-            .map(|(size, stride)| (size - 1) * stride)
-            .sum();
-        max_offset + 1
+            .fold(0usize, |max_offset, (size, stride)| {
+                max_offset.saturating_add((size - 1).saturating_mul(stride))
+            });
+        max_offset.saturating_add(1)
     }
 
     /// Return a new layout formed by reshaping this one to `shape`.
@@ -563,7 +567,11 @@ impl<const N: usize> NdLayout<N> {
     fn contiguous_strides(shape: [usize; N]) -> [usize; N] {
         let mut strides = [0; N];
         for i in 0..N {
-            strides[i] = shape[i + 1..].iter().product();
+            // Saturate rather than overflow. A layout whose strides saturate
+            // has a `min_data_len` of `usize::MAX`.
+            strides[i] = shape[i + 1..]
+                .iter()
+                .fold(1usize, |product, size| product.saturating_mul(*size));
         }
         strides
     }
@@ -715,7 +723,9 @@ impl DynLayout {
         let mut stride = 1;
         for i in (0..shape.len()).rev() {
             strides_and_shape[shape.len() + i] = stride;
-            stride *= shape[i];
+            // Saturate rather than overflow. A layout whose strides saturate
+            // has a `min_data_len` of `usize::MAX`.
+            stride = stride.saturating_mul(shape[i]);
         }
         strides_and_shape
     }
